@@ -285,6 +285,19 @@ def pat_bindings(p):
     return []
 
 
+def attribute_loops(fn):
+    """`for` loops of fn that iterate over one of its parameters of an attribute-list type (&[Attribute], &Vec<syn::Attribute> ..);
+    identified by the parameter's type, not by its name"""
+    names = [p["pat"].get("name") for p in fn.sig.get("params", []) if p.get("pat") and "Attribute" in (p.get("ty") or "")]
+    out = []
+    for e in walk_block(fn.body):
+        if e.get("k") == "for":
+            it = expr_text(e["iter"])
+            if any(re.search(r"\b%s\b" % re.escape(n), it) for n in names if n):
+                out.append(e)
+    return out
+
+
 # ------------------------------------------------------------------ Tera AST helpers
 
 def tera_expr_idents(e):
